@@ -49,6 +49,10 @@ def gen(rng):
     for n in labels:
         if rng.random() < 0.3:
             h.add_node(n)
+    if rng.random() < 0.35:  # calls the library refuses, made before measuring (a refused call must leave no trace)
+        from ..mutate import refused_calls
+
+        refused_calls(rng, h, directed=True)
     return h
 
 
@@ -94,7 +98,15 @@ def run_case(ctx, rng, idx):
 def evaluate(ctx, rng, idx, h):
     from hypergraphx.measures import directed as dm
 
-    S = observe(h)
+    P = []
+    try:
+        S = observe(h, P)
+    except Exception as e:  # listings that disagree with each other (e.g. after a refused call left a trace)
+        ctx.check("C12:degree", False, f"C12:object-views-inconsistent:{type(e).__name__}", {"error": repr(e)[:300]})
+        return
+    if P:
+        ctx.check("C12:degree", False, "C12:object-views-inconsistent:" + P[0], {"problems": P[:5]})
+        return
     E = list(S.edges)
     sizes = [len(s) + len(t) for s, t in E]
     mx = max(sizes)
